@@ -266,14 +266,51 @@ def identity_compares(fi):
             return True
         return False
 
+    def value_like(x):
+        # an operand that denotes a data value (not a component object): a str/number literal, something named *value*, the result of
+        # to_value()/get_variable()
+        if isinstance(x, ast.Constant) and isinstance(x.value, (str, int, float)) and not isinstance(x.value, bool):
+            return True
+        if isinstance(x, ast.Name) and "value" in x.id.lower():
+            return True
+        if isinstance(x, ast.Attribute) and "value" in x.attr.lower():
+            return True
+        if isinstance(x, ast.Call) and call_name(x) in ("to_value", "get_variable", "_value_one", "_value_two"):
+            return True
+        return False
+
     out = []
     for c in walk_no_nested(fi.node):
         if isinstance(c, ast.Compare):
             operands = [c.left] + c.comparators
             for i, op in enumerate(c.ops):
-                if isinstance(op, (ast.Is, ast.IsNot)) and not fine(operands[i]) and not fine(operands[i + 1]):
+                a, b = operands[i], operands[i + 1]
+                if isinstance(op, (ast.Is, ast.IsNot)) and not fine(a) and not fine(b) and (value_like(a) or value_like(b)):
                     out.append(c)
     return out
+
+
+_MUTATORS = {"append", "extend", "insert", "update", "add", "pop", "remove", "clear", "setdefault", "sort", "reverse", "discard", "popitem"}
+
+
+def _keeps_or_mutates(node, name):
+    """the shared default object only matters when the function keeps it (stores it in an attribute/container, returns or yields it) or
+    mutates it in place; a default that is only read is harmless"""
+    for n in ast.walk(node):
+        if isinstance(n, ast.Assign) and isinstance(n.value, ast.Name) and n.value.id == name and any(not isinstance(t, ast.Name) for t in n.targets):
+            return True
+        if isinstance(n, (ast.Return, ast.Yield)) and isinstance(n.value, ast.Name) and n.value.id == name:
+            return True
+        if isinstance(n, ast.Call) and isinstance(n.func, ast.Attribute) and n.func.attr in _MUTATORS and isinstance(n.func.value, ast.Name) and n.func.value.id == name:
+            return True
+        if isinstance(n, (ast.Assign, ast.AugAssign, ast.Delete)):
+            tgts = n.targets if isinstance(n, (ast.Assign, ast.Delete)) else [n.target]
+            for t in tgts:
+                if isinstance(t, ast.Subscript) and isinstance(t.value, ast.Name) and t.value.id == name:
+                    return True
+                if isinstance(n, ast.AugAssign) and isinstance(t, ast.Name) and t.id == name:
+                    return True
+    return False
 
 
 def _mutable_default_sites(funcs):
@@ -285,7 +322,8 @@ def _mutable_default_sites(funcs):
         for p, v in pairs:
             if isinstance(v, (ast.List, ast.Dict, ast.Set, ast.ListComp, ast.DictComp, ast.SetComp)) or (
                     isinstance(v, ast.Call) and unparse(v.func) in ("list", "dict", "set", "defaultdict", "collections.defaultdict", "deque", "OrderedDict")):
-                out.append((fi, node, p.arg, v))
+                if _keeps_or_mutates(node, p.arg):
+                    out.append((fi, node, p.arg, v))
     return out
 
 
@@ -293,7 +331,7 @@ def mutable_defaults(idx, rep, rid):
     """a list/dict/set literal as a parameter default is one object shared by every call: state kept in it (a Result's errors, a path's
     variables) survives from one member, run or instance into the next.  Expected count on this code base: zero; the detector is
     exercised on a built-in positive example on every run."""
-    probe = ast.parse("def f(self, errors=[], *, seen={}, n=0, t=()):\n    self._errors = errors\n").body[0]
+    probe = ast.parse("def f(self, errors=[], *, seen={}, ro=[], n=0, t=()):\n    self._errors = errors\n    seen[n] = 1\n    return len(ro)\n").body[0]
     ctl = _mutable_default_sites([(None, probe)])
     if [c[2] for c in ctl] != ["errors", "seen"]:
         raise AnalysisError(f"{rep.pid}.{rid}: the mutable-default detector does not recognise its positive example ({[c[2] for c in ctl]})")
@@ -347,3 +385,35 @@ def guard_flags(idx, rep, rid):
         rep.fail(rid, f"{fi.file}::{fi.qual} guard flag {k} is not cleared in a finally", f"the function returns early while `{k}` is set, sets it around its work and clears it afterwards: "
                  "an exception in the work leaves it set, and every later call on the object silently does nothing", where(fi, st))
     rep.check(not sites and len(funcs) > 1000, rid, "csvpath::no guard flag is left set by an exception", f"{len(funcs)} functions scanned, {len(sites)} unprotected guard flags", "csvpath/")
+
+
+def fold_table(idx, cls, meth, member_key, kind="all", source="self.results", source_handler=None, args=None, nmax=3):
+    """(ok, detail): cls.meth interpreted over every list of <= nmax members (typed Result, each with or without collected lines, so that
+    a truthiness test on the member itself would show) x member values; `all`: the conjunction of the members' <member_key>; `sum`: the sum"""
+    import itertools
+    from sa.absint import Interp, Obj
+    fi = idx.method(cls, meth)
+    vals = (True, False) if kind == "all" else (0, 2)
+    n_rows = 0
+    for n in range(0, nmax + 1):
+        for combo in itertools.product(itertools.product(vals, (0, 1)), repeat=n):
+            members = [Obj(f"r{i}") for i in range(n)]
+            store = {}
+            types = {"self": cls}
+            for i, (v, nlines) in enumerate(combo):
+                types[f"r{i}"] = "Result"
+                store[f"r{i}.{member_key}"] = v
+                store[f"r{i}._lines"] = [["x"]] * nlines
+                store[f"r{i}.lines"] = store[f"r{i}._lines"]
+            handlers = {}
+            if source_handler:
+                handlers[source_handler] = lambda i, c, r, a, k, members=members: list(members)
+            else:
+                store[source] = list(members)
+            ps = Interp(idx, types=types, unknown_calls="residual", handlers=handlers).run_all(fi, args=dict(args or {}), store=store)
+            n_rows += 1
+            want = all(v for v, _ in combo) if kind == "all" else sum(v for v, _ in combo)
+            if len(ps) != 1 or ps[0].result != ("return", want):
+                desc = [f"{member_key}={v}, {nl} collected line(s)" for v, nl in combo]
+                return fi, False, f"members [{'; '.join(desc)}]: {cls}.{meth} gives {[p.result for p in ps][:2]}, documented {want!r} ({'conjunction' if kind == 'all' else 'sum'} over every member)", n_rows
+    return fi, True, f"{n_rows} member lists", n_rows
